@@ -83,14 +83,31 @@ def build(sc, record=True):
     zl = sc["zlim"]
     therm = StubTherm(els, ["ALPHA"], **sc.get("stub", {}))
     cls = SinglePhaseModel if sc["model"] == "single" else HomogenizationModel
-    m = cls(zl, sc["N"], els, ["ALPHA"], thermodynamics=therm, record=record)
     T = sc["T"]
-    if T[0] == "const":
-        m.setTemperature(T[1])
-    elif T[0] == "array":
-        m.setTemperatureArray(T[1], T[2])
-    else:
-        m.setTemperatureFunction(temperature_fn(T))
+    tapi = sc.get("T_api", "model")         # "model": model-level setters; "ctor": parameter object given to the constructor;
+    kw = {}                                 # "params": typed setters of the model's parameter object, after the schedules in T_prior
+    targs = (T[1],) if T[0] == "const" else (T[1], T[2]) if T[0] == "array" else (temperature_fn(T),)
+    if tapi == "ctor":
+        from kawin.diffusion.DiffusionParameters import TemperatureParameters
+        kw["temperatureParameters"] = TemperatureParameters(*targs)
+    m = cls(zl, sc["N"], els, ["ALPHA"], thermodynamics=therm, record=record, **kw)
+    for Tp in sc.get("T_prior", []) if tapi != "ctor" else []:
+        if Tp[0] == "const":
+            m.setTemperature(Tp[1])
+        elif Tp[0] == "array":
+            m.setTemperatureArray(Tp[1], Tp[2])
+        else:
+            m.setTemperatureFunction(temperature_fn(Tp))
+    if tapi == "params":
+        tp = m.temperatureParameters
+        (tp.setIsothermalTemperature if T[0] == "const" else tp.setTemperatureArray if T[0] == "array" else tp.setTemperatureFunction)(*targs)
+    elif tapi == "model":
+        if T[0] == "const":
+            m.setTemperature(T[1])
+        elif T[0] == "array":
+            m.setTemperatureArray(T[1], T[2])
+        else:
+            m.setTemperatureFunction(temperature_fn(T))
     L = zl[1] - zl[0]
     api = sc.get("api", "parameters")      # "model": the model-level wrapper functions where one exists for the request
     for e in els[1:]:
